@@ -6,7 +6,7 @@ Require Import ExtrOcamlBasic.
 From PVIdl Require Import Parser Print Proofs.Nesting Proofs.RoundTy.
 
 Extraction "model.ml"
-  bn nesting pr_type wf_type erase_type simple_type
+  bn nesting pr_type wf_type erase_type simple_type pr_file wf_file erase_file
   parse_file p_file p_item p_include p_cpp_include p_namespace p_scope p_typedef p_constant p_enum p_enum_value
   p_struct p_union p_exception p_struct_like p_service p_function p_field p_attribute p_type p_ty p_cpp_type
   p_const_value p_int_constant p_double_constant p_annotations p_literal p_ident p_path p_blank p_list_separator.
